@@ -47,9 +47,23 @@ fn routing(c10: bool, c11: bool) {
     assert!(raw == (lvl == 0));
     assert!((flags & TDEFL_WRITE_ZLIB_HEADER != 0) == (fmt == 1 && w > 0));
     if lvl != 0 {
-        // RLE is in force when asked for, and whenever the window cannot hold real matches
-        assert!(rle == (strat == 3 || (w < 12 && strat != 2)));
-        assert!(filter == (strat == 1 && !(w < 12)));
+        if c10 {
+            // C10: run-length mode is in force whenever the caller asked for it
+            if strat == 3 {
+                assert!(rle);
+            }
+            // ... and nobody gets it unasked except through the small-window rule
+            if rle {
+                assert!(strat == 3 || w < 12);
+            }
+        }
+        if c11 && fmt == 1 && w > 0 && w < 12 && strat != 2 {
+            // C11: a zlib header declaring <= 2 KiB confines the stream to distance-1 matches
+            assert!(rle);
+        }
+        if !rle {
+            assert!(filter == (strat == 1));
+        }
         if strat == 2 {
             assert!(flags & 0xFFF == 0);
         }
@@ -495,3 +509,75 @@ fn compress_tail(lo: u8, hi: u8, wb: i32) {
     core::mem::forget(c);
 }
 
+
+// ------------------------------------------------------------------------------------------
+// C18: CompressorOxide::reset() from a completely arbitrary state equals a new compressor.
+
+fn scalars_equal(a: &dcore::verif::Scalars, b: &dcore::verif::Scalars) -> bool {
+    a.flags == b.flags
+        && a.greedy_parsing == b.greedy_parsing
+        && a.window_bits_max == b.window_bits_max
+        && a.block_index == b.block_index
+        && a.saved_match_dist == b.saved_match_dist
+        && a.saved_match_len == b.saved_match_len
+        && a.saved_lit == b.saved_lit
+        && a.flush == b.flush
+        && a.flush_ofs == b.flush_ofs
+        && a.flush_remaining == b.flush_remaining
+        && a.finished == b.finished
+        && a.adler32 == b.adler32
+        && a.src_pos == b.src_pos
+        && a.out_buf_ofs == b.out_buf_ofs
+        && a.prev_return_status == b.prev_return_status
+        && a.saved_bit_buffer == b.saved_bit_buffer
+        && a.saved_bits_in == b.saved_bits_in
+        && a.lz_code_position == b.lz_code_position
+        && a.lz_flag_position == b.lz_flag_position
+        && a.lz_total_bytes == b.lz_total_bytes
+        && a.lz_num_flags_left == b.lz_num_flags_left
+        && a.max_probes[0] == b.max_probes[0]
+        && a.max_probes[1] == b.max_probes[1]
+        && a.code_buf_dict_pos == b.code_buf_dict_pos
+        && a.lookahead_size == b.lookahead_size
+        && a.lookahead_pos == b.lookahead_pos
+        && a.dict_size == b.dict_size
+        && a.loop_len == b.loop_len
+}
+
+/// Whatever the compressor was used for (every scalar and every array arbitrary: mid-block,
+/// pending output, saved lazy match, error status, any hash chains), reset() leaves it in the state of
+/// `CompressorOxide::new(flags)`; equal state => byte-identical behaviour (safe, deterministic code).
+#[kani::proof]
+#[kani::unwind(6)]
+#[kani::stub(<[u16]>::fill, fill_model)]
+fn w_compressor_reset() {
+    let lvl: u8 = kani::any();
+    let zl: bool = kani::any();
+    let strat: u8 = kani::any();
+    kani::assume(lvl <= 10 && strat <= 4);
+    let flags = dcore::create_comp_flags_from_zip_params(lvl as i32, zl as i32, strat as i32);
+    let mut c = CompressorOxide::new(flags);
+    c.verif_havoc_state();
+    c.reset();
+    let fresh = CompressorOxide::new(flags);
+    assert!(scalars_equal(&c.verif_scalars(), &fresh.verif_scalars()));
+    let i: usize = kani::any();
+    kani::assume(i < 32768);
+    assert!(c.verif_hash(i) == 0 && c.verif_next(i) == 0);
+    let j: usize = kani::any();
+    kani::assume(j < 33026);
+    assert!(c.verif_dict(j) == 0);
+    let k: usize = kani::any();
+    kani::assume(k < 65536);
+    assert!(c.verif_lz_code(k) == 0);
+    let m: usize = kani::any();
+    kani::assume(m < 85196);
+    assert!(c.verif_local_buf(m) == 0);
+    let t: usize = kani::any();
+    let n: usize = kani::any();
+    kani::assume(t < 3 && n < 288);
+    assert!(c.verif_huff_count(t, n) == 0 && c.verif_huff_code(t, n) == 0 && c.verif_huff_code_size(t, n) == 0);
+    kani::cover!(lvl == 10 && zl, "end reached");
+    core::mem::forget(c);
+    core::mem::forget(fresh);
+}
